@@ -430,6 +430,30 @@ pub fn run(rep: &'static Report) {
         // messages to the REAL bob: from the real alice, and from the decoy "alice" (whose key the real ring does not contain)
         let from_alice = r::write_key_file(&alice.sk, &bob.pk, &e, &pay, &pl, &[pl.len()]).unwrap();
         let from_decoy = r::write_key_file(&da.sk, &bob.pk, &e, &pay, &pl, &[pl.len()]).unwrap();
+        // names that differ only in letter case, prefix or suffix are different entries: `-t bob` addresses bob's key,
+        // whichever entry is listed first
+        {
+            let variants: Vec<(&str, Party)> = ["Bob", "BOB", "bo", "bobb", " bob"].iter().map(|n| (*n, Party::new(seed, &format!("variant-{}", n), "x"))).collect();
+            for first in [true, false] {
+                rep.eval(1);
+                rep.nontrivial(format!("cli-name-variants-{}", first).as_bytes());
+                let var_entries: String = variants.iter().filter(|(n, _)| !n.starts_with(' ')).map(|(n, p)| proc::keyring_entry(n, &p.pk_enc, None)).collect::<Vec<_>>().join("\n");
+                let real = crate::fx::keyring(&[(&alice, true), (&bob, true)]);
+                let text = if first { format!("{}\n{}", var_entries, real) } else { format!("{}\n{}", real, var_entries) };
+                let sc = Scratch::new();
+                sc.write("ring.txt", text.as_bytes());
+                sc.write("plain.bin", &pl);
+                let o = proc::run(&Cmd::new(&["encrypt", "plain.bin", "-t", "bob", "-f", "alice", "-k", "ring.txt", "-o", "out.ktl", "--env-pass"]).env("KESTREL_PASSWORD", "alicepw"), &sc.0);
+                let f = sc.read("out.ktl").unwrap_or_default();
+                let case = json!({"kind":"cli-keyring","name_variants_first":first});
+                if !o.ok() {
+                    rep.violation("cli-keyring/encrypt-fails", case, format!("kestrel encrypt -t bob with entries named Bob/BOB/bo/bobb next to bob failed: {}", o.summary()));
+                } else if !matches!(r::read_key_file(&bob.sk, &f), Ok(k) if k.parsed.plaintext == pl) {
+                    let who = variants.iter().find(|(_, p)| r::read_key_file(&p.sk, &f).is_ok()).map(|(n, _)| *n);
+                    rep.violation("cli-keyring/encrypted-to-a-similarly-named-key", case, format!("kestrel encrypt -t bob: the file does not open under bob's key{}", who.map(|n| format!(" - it opens under the key of the entry named '{}'", n)).unwrap_or_default()));
+                }
+            }
+        }
         for env_decoy in [false, true] {
             for via_env_only in [false, true] {
                 if via_env_only && env_decoy {
